@@ -94,13 +94,15 @@ def run(ctx):
     units = []
     if not berr:
         corpus = [c for c in repo_corpus(quick) if c[4] and not (quick and c[0] == 'goldmaster')]
-        specs = corpus + [fixed_unit(ctx, "f1", F1_SCHEMA), fixed_unit(ctx, "amp", AMP_SCHEMA)] + sane_specs(ctx, 8 if quick else 40)
+        vrng = random.Random(ctx.rng.getrandbits(64))
+        specs = corpus + [fixed_unit(ctx, "f1", F1_SCHEMA), fixed_unit(ctx, "amp", AMP_SCHEMA)] + \
+            [fixed_unit(ctx, f"fv{i}", tlb.f1_variant(vrng)) for i in range(2 if quick else 12)] + sane_specs(ctx, 8 if quick else 40)
         units = prepare_units(ctx, specs, bins, driver_files=DRIVER_FILES)
     log('[C08] units ready', round(time.time() - ctx.t0))
     nvals = 3 if quick else 20
     nmut = 4 if quick else 20
     stats = {"schemas": 0, "types": 0, "tl1_reads": 0, "valid": 0, "mutated": 0, "hostile_count": 0, "truncated": 0, "deep": 0, "random": 0,
-             "tl2_reads": 0, "json_reads": 0, "transcodes": 0, "kernel_rejected": 0, "ranked_units": 0, "unranked_units": 0,
+             "tl2_reads": 0, "json_reads": 0, "transcodes": 0, "kernel_rejected": 0, "not_built_c14": 0, "ranked_units": 0, "unranked_units": 0,
              "unranked_no_divergence_found": 0, "diverging_inputs": 0, "max_rank": 0, "max_fuel_used": 0, "max_depth_input": 0}
     ratio = {"max_alloc_per_call_bound": 0.0, "max_alloc_per_input_byte_x_elemsize": 0.0, "max_alloc_bytes": 0}
     verdicts, mism, bad, samples, unit_errors, unit_notes = {}, [], [], [], [], []
@@ -109,11 +111,17 @@ def run(ctx):
 
     def work(u):
         rng = rngs[u.name]
-        is_repo = not (u.name.startswith("rs") or u.name in ("f1", "amp"))
+        is_repo = not (u.name.startswith(("rs", "fv")) or u.name in ("f1", "amp"))
         if u.kernel_rejected and not is_repo:
             with lock:
                 stats["kernel_rejected"] += 1
                 unit_notes.append({"unit": u.name, "note": "rejected by the kernel: " + trunc(u.error, 160)})
+            return
+        if not is_repo and (u.gen_failed or (u.error or "").startswith("go build")):
+            # generated code that does not build / generator refusal is C14's business: nothing to read here
+            with lock:
+                stats["not_built_c14"] += 1
+                unit_notes.append({"unit": u.name, "note": "generator failed or generated code does not build (property C14): " + trunc((u.error or "").splitlines()[-1] if u.error else "", 200)})
             return
         if u.error or not u.gen:
             with lock:
@@ -140,7 +148,8 @@ def run(ctx):
 
         # ---- (1) well-formedness and ranking, checked by the extracted Coq functions
         rank, cycles = tlb.find_rank(u.ins)
-        pre = ["wf"] + (["setrank " + " ".join(map(str, rank))] if rank is not None else ["norank", "productive"])
+        dcs = "".join("1" if b else "0" for b in tlb.compute_dc(u.ins))
+        pre = ["wf"] + ([f"setrank {dcs} " + " ".join(map(str, rank))] if rank is not None else ["norank", "productive"])
         rc0, mo0, err0 = run_lines(ref, [str(u.ir_path)], pre)
         if rc0 != 0 or len(mo0) != len(pre):
             with lock:
